@@ -20,7 +20,7 @@ RULE = ('pairs of magnitudes with/without absolute uncertainty, of either sign, 
 SHARDS = {'quick': 16, 'thorough': 16}
 MIN_NONTRIVIAL = {'quick': 5000, 'thorough': 120000}
 REQUIRED_CLASSES = ['both-operands-one-object', 'decimal-exact-plus-uncertain-float', 'relative-uncertainty-input', 'relative-uncertainty-on-negative-value', 'relative-uncertainty-ctor', 'relative-uncertainty-setter', 'relative-uncertainty-through-magnitude-object', 'cancelling-units-collapse', 'quantity-ops-same-dimension-other-unit', 'mag:add', 'mag:sub', 'mag:mul', 'mag:truediv', 'mag:pow', 'mag:neg', 'exact-partner-negative', 'exact-partner-left',
-                    'both-uncertain-positive', 'both-exact', 'array', 'scalar', 'negative-exponent', 'quantity-conversion',
+                    'per-element-uncertainty-with-exact-elements', 'per-element:quantity-level', 'both-uncertain-positive', 'both-exact', 'array', 'scalar', 'negative-exponent', 'quantity-conversion',
                     'quantity-mixed-unit-sum', 'quantity-ops', 'repo-tests-under-contracts', 'value-query-then-reuse', 'sum-evaluated-twice']
 REQUIRED_MONITORS = ['decimal_sum_compares', 'contract:Magnitude._add', 'contract:Magnitude._sub', 'contract:Magnitude._mul', 'contract:Magnitude._truediv',
                      'contract:Magnitude.__pow__', 'contract:Magnitude.__neg__', 'contract:UnitType.convert',
@@ -81,11 +81,32 @@ def ge(rng, v):
     return round(m * rng.choice([0.001, 0.01, 0.05, 0.2]), 6) or 0.001
 
 
+def gen_elemerr(rng):
+    """array magnitudes whose uncertainty is given PER ELEMENT, some elements exactly known (0.0) and others not"""
+    n = rng.choice([2, 3, 4])
+    va = [rng.choice([rng.uniform(0.5, 50), float(rng.randint(1, 9))]) for _ in range(n)]
+    vb = [rng.choice([rng.uniform(0.5, 5), float(rng.randint(1, 9))]) for _ in range(n)]
+    ea = [round(v * rng.choice([0.01, 0.05, 0.2]), 6) for v in va]
+    for i in rng.sample(range(n), rng.randint(1, n - 1)):
+        ea[i] = 0.0                                             # at least one exact and one uncertain element
+    eb = rng.choice([None, round(min(vb) * 0.05, 6), [round(v * 0.1, 6) for v in vb]])
+    if isinstance(eb, list) and rng.random() < 0.5:
+        eb[rng.randrange(n)] = 0.0
+    k = [rng.choice([0.0, 2.0, -3.0, 0.5, 1.0]) for _ in range(n)]
+    if rng.random() < 0.6 and 0.0 not in k:
+        k[rng.randrange(n)] = 0.0
+    fam = rng.choice(list(FAM))
+    return dict(t='elemerr', va=va, vb=vb, ea=ea, eb=eb, k=k, level=rng.choice(['M', 'Q']), u=rng.choice(FAM[fam]), v=rng.choice(FAM[fam]),
+                op=rng.choice(['add', 'sub', 'radd-number', 'neg', 'mul-exact-array', 'div-exact-array', 'mul-uncertain', 'div-uncertain', 'to', 'mul-exact-zero-then-add']))
+
+
 def cases(rng, tier, shard, nshards, ctx):
     if shard == 0:
         yield dict(t='repo-tests', tests=['tests/units'] if tier == 'quick' else ['tests/units', 'tests/materials', 'tests/dip/test_expressions.py'])
     n = 14000 if tier == 'quick' else 420000
-    for _ in range(n // nshards):
+    for j in range(n // nshards):
+        if j % 12 == 5:
+            yield gen_elemerr(rng)
         r = rng.random()
         arr = rng.random() < 0.3
         if r < 0.55:
@@ -375,6 +396,51 @@ def _run(case, ctx):
             ae = res.abse() if hasattr(res, 'abse') else res.error
             if ae is None or not close(float(ae), exp_e, 1e-9):
                 devs.append(dev('sum-with-exact-decimal-operand-loses-or-changes-the-uncertainty', dict(case=case, observed=None if ae is None else float(ae), expected=exp_e)))
+        elif t == 'elemerr':
+            op, va, vb, ea, eb, k, n = case['op'], case['va'], case['vb'], case['ea'], case['eb'], case['k'], len(case['va'])
+            classes += ['per-element-uncertainty-with-exact-elements', 'per-element:' + op, 'array']
+            uncertain = True
+            mon['per_element_uncertainty_compares'] = 1
+            ebl = [0.0] * n if eb is None else ([eb] * n if not isinstance(eb, list) else eb)
+            if case['level'] == 'M' or op == 'to':
+                mkq = (lambda v, e: M(np.array(v, dtype=float), abse=None if e is None else (np.array(e, dtype=float) if isinstance(e, list) else e))) if op != 'to' else None
+            if case['level'] == 'Q' or op == 'to':
+                u = case['u']
+                mkq = lambda v, e: Q(np.array(v, dtype=float), u, abse=None if e is None else (np.array(e, dtype=float) if isinstance(e, list) else e))
+                classes.append('per-element:quantity-level')
+            a, b = mkq(va, ea), mkq(vb, eb)
+            karr = np.array(k, dtype=float)
+            exp, atleast = None, None
+            if op == 'add':
+                res = a + b; exp = [x + y for x, y in zip(ea, ebl)]
+            elif op == 'sub':
+                res = a - b; exp = [x + y for x, y in zip(ea, ebl)]
+            elif op == 'radd-number':
+                res = (5 + a) if case['level'] == 'M' else (a + mkq([1.0] * n, None)); exp = list(ea)
+            elif op == 'neg':
+                res = -a; exp = list(ea)
+            elif op == 'mul-exact-array':
+                res = a * karr if case['level'] == 'M' else a * karr; exp = [e * abs(z) for e, z in zip(ea, k)]
+            elif op == 'div-exact-array':
+                kk = np.array([z if z else 4.0 for z in k]); res = a / kk; exp = [e / abs(z) for e, z in zip(ea, kk)]
+            elif op == 'mul-uncertain':
+                res = a * b; atleast = [abs(x) * eb_ + abs(y) * ea_ for x, y, ea_, eb_ in zip(va, vb, ea, ebl)]
+            elif op == 'div-uncertain':
+                res = a / b; atleast = [(abs(x) * eb_ + abs(y) * ea_) / (y * y) for x, y, ea_, eb_ in zip(va, vb, ea, ebl)]
+            elif op == 'to':
+                a.to(case['v']); res = a; f = F[case['u']] / F[case['v']]; exp = [e * f for e in ea]
+            elif op == 'mul-exact-zero-then-add':
+                res = a * karr + a; exp = [e * abs(z) + e for e, z in zip(ea, k)]
+            ae = res.abse() if hasattr(res, 'abse') else res.error
+            obs = [0.0] * n if ae is None else [float(z) for z in (np.asarray(ae, dtype=float) * np.ones(n))]
+            if any(z < 0 or z != z for z in obs):
+                devs.append(dev('per-element:negative-or-undefined-uncertainty', dict(case=case, observed=obs)))
+            elif exp is not None and not all(close(o, x_, 1e-9, 1e-300) for o, x_ in zip(obs, exp)):
+                lost = ae is None and any(x_ > 0 for x_ in exp)
+                devs.append(dev('per-element:%s' % ('uncertainty-of-the-uncertain-elements-lost' if lost else 'uncertainty-differs-from-the-rule(%s)' % op),
+                                dict(case=case, observed=None if ae is None else obs, expected=exp)))
+            elif atleast is not None and not all(o >= x_ * (1 - 1e-9) for o, x_ in zip(obs, atleast)):
+                devs.append(dev('per-element:below-first-order(%s)' % op, dict(case=case, observed=None if ae is None else obs, at_least=atleast)))
         elif t == 'qcollapse':
             # a quantity written in units that cancel (km/m, kJ/J, h*s-1) is folded into a pure number: value and absolute
             # uncertainty are scaled by the same factor
